@@ -26,7 +26,8 @@ THIS_BUILTINS = [("size", 0), ("contains", 1), ("string", 0), ("double", 0), ("i
 
 KIND_VALUES = {
     'i': [I(0), I(-5), I(9223372036854775807)], 'u': [U(0), U(7), U(18446744073709551615)], 'd': [D(1.5), D(float('nan'))],
-    's': [S(""), S("héllo")], 'y': [Y(b""), Y(b"\xff")], 'b': [B(True), B(False)], 'l': [L([]), L([I(1), S("x")])],
+    's': [S(""), S("héllo")] + [S('x' * k + 'é' * 60) for k in range(4)], 'y': [Y(b""), Y(b"\xff"), Y(('x' + 'é' * 70).encode())],
+    'b': [B(True), B(False)], 'l': [L([]), L([I(1), S("x")]), L([S('xx' + '日' * 40)])],
     'D': [DUR(0), DUR(-1500000000)], 'T': [TS(0, 0, 0), TS(1685232000, 5, 3600)], 'n': [NULL], 'm': [M([(S("k"), I(1))])],
 }
 ALL_KINDS = list(KIND_VALUES)
@@ -62,6 +63,15 @@ def run_unit(unit, drv, res, seed, tier):
                     g = exec_case(len(cases), "%s(x%s)" % (f, (", " + an) if an else ""), vs)
                     cases.append(g)
                     meta.append((f, len(args)))
+                    if (vi + len(f)) % 3 == 0:
+                        # the same call two scopes down, receiver and arguments bound by macros
+                        inner_an = ", ".join("q%d" % i for i in range(len(args)))
+                        wrapm = "[x].map(r, %s)[0]"
+                        for i in range(len(args)):
+                            wrapm = wrapm % ("[a%d].map(q%d, %%s)[0]" % (i, i))
+                        cases.append(exec_case(len(cases), wrapm % ("r.%s(%s)" % (f, inner_an)), vs))
+                        cases.append(exec_case(len(cases), wrapm % ("%s(r%s)" % (f, (", " + inner_an) if inner_an else "")), vs))
+                        meta.append((f + '@macro', len(args)))
         out = drv.run(cases, 'styles')
         for k, (f, nargs) in enumerate(meta):
             cm, cg = cases[2 * k], cases[2 * k + 1]
